@@ -52,7 +52,7 @@ CHECKS = {
    design_ref="DESIGN.md section 4 C07",
    note="bounded: streams of <= 2 documents up to 10/11 events exhaustively, random streams of <= 3 documents beyond; the events "
         "threshold is not exercised for the streaming iterator (the stream-end marker is counted against the last document); " + TRUST,
-   technique="TLA+ model (Budget.tla, MC_Budget.tla) checked by TLC + TLC trace validation of recorded budgeted calls against Budget!Usage / FirstExceeded"),
+   technique="TLA+ model (Budget.tla, MC_Budget.tla) checked by TLC + TLC trace validation of recorded budgeted calls against Budget!Usage / FirstExceeded + action-level trace validation of the instrumented enforcer (TR_Budget)"),
  "C11": dict(
    category="model_checking",
    text="Stream.tla gives the declarative meaning of a stream as the list of its documents (null/empty skipped, type errors "
